@@ -777,7 +777,7 @@ def m_var_position(ts, d, r):
 
 @M("variable-inside-list-or-object")
 def m_var_nested(ts, d, r):
-    if d["ops"][0]["ty"] != "query": return None
+    if d["ops"][0]["ty"] != "query" or "fin" not in ts["types"][ts["query"]]["fields"]: return None
     if not d["ops"][0]["name"]:
         d["ops"][0]["name"] = "Q"
     form = r.randrange(6)
@@ -914,7 +914,7 @@ def m_sub_roots(ts, d, r):
 @M("unsupplied-variable-beside-wrong-literal")
 def m_unsupplied(ts, d, r):
     """a wrong literal in an argument value that also mentions a variable the request leaves out"""
-    if d["ops"][0]["ty"] != "query": return None
+    if d["ops"][0]["ty"] != "query" or "fin" not in ts["types"][ts["query"]]["fields"]: return None
     if not d["ops"][0]["name"]:
         d["ops"][0]["name"] = "Q"
     d["ops"][0]["vars"].append(vardef("zo", N("Int")))
@@ -934,7 +934,10 @@ def mutate(ts, doc, rng, name=None):
     """apply one mutation (by name or random); returns (name, doc) or None"""
     cands = [(n, f) for n, f in MUTATIONS if name is None or n == name]
     n, f = rng.choice(cands)
-    out = f(ts, copy.deepcopy(doc), rng)
+    try:
+        out = f(ts, copy.deepcopy(doc), rng)
+    except (IndexError, KeyError, ValueError):      # the mutation does not apply to this document / type system
+        out = None
     return (n, out) if out is not None else None
 
 
@@ -954,10 +957,10 @@ def g1_configs(quick):
     """pool configurations of Gen_ValDoc.tla, each aimed at a group of rules (quick: small budgets, thorough: one more node / bigger pools)"""
     q = quick
     c = {}
-    c["shape"] = dict(BASE, MaxNodes=3 if q else 4, MaxAlias=0 if q else 1, Fields=["id", "a", "u", "nope", "__typename"] if q else ["id", "val", "a", "node", "u", "nope", "__typename"],
-                      Conds=["A", "C", "Int", "Nope"] if q else ["A", "B", "C", "Node", "U", "Int", "Nope"])
+    c["shape"] = dict(BASE, MaxNodes=3 if q else 4, MaxAlias=0, Fields=["id", "a", "u", "nope", "__typename"] if q else ["id", "a", "node", "nope", "__typename"],
+                      Conds=["A", "C", "Int", "Nope"] if q else ["A", "C", "U", "Int", "Nope"])
     c["merge"] = dict(BASE, MaxNodes=4 if q else 5, MaxAlias=2, Fields=["node", "id", "name"], Conds=["A"] if q else ["A", "B"], OpenOnly=["node"], LeafOnly=["id", "name"])
-    c["merge2"] = dict(BASE, MaxNodes=3 if q else 5, MaxAlias=0 if q else 1, MaxArgs=2, Fields=["a", "echo"] if q else ["a", "echo", "val"], Conds=[] if q else ["A"], OpenOnly=["a"], LeafOnly=["echo", "val"], ArgPool=["x=int1", "x=int2"])
+    c["merge2"] = dict(BASE, MaxNodes=3 if q else 4, MaxAlias=0 if q else 1, MaxArgs=2, Fields=["a", "echo"] if q else ["a", "echo", "val"], Conds=[] if q else ["A"], OpenOnly=["a"], LeafOnly=["echo", "val"], ArgPool=["x=int1", "x=int2"])
     c["args"] = dict(BASE, MaxNodes=1 if q else 2, MaxArgs=2, MaxVars=1, OpHeads=["query:Q"], Fields=["fi", "fr", "fd", "f2", "nope"], LeafOnly=["fi", "fr", "fd", "f2", "nope"],
                      ArgPool=["x=int1", "x=str", "x=null", "x=$v", "y=str", "zz=int1"], VarPool=["v|Int||", "v|Int!||", "v|String||"])
     c["argsin"] = dict(BASE, MaxNodes=1, MaxArgs=1 if q else 2, MaxVars=1, OpHeads=["query:Q"], Fields=["fe", "fin", "fli"], LeafOnly=["fe", "fin", "fli"],
@@ -973,7 +976,7 @@ def g1_configs(quick):
                      ArgPool=["x=$v", "x=$zz", "l=$v", "l=l$v", "i=$v", "i=obj$v", "e=$v", "x=int1"], VarPool=VARS_ALL)
     c["vars2"] = dict(BASE, MaxNodes=2, MaxArgs=2, MaxVars=2, OpHeads=["query:Q"], Fields=["fi", "f2"], LeafOnly=["fi", "f2"], ArgPool=["x=$v", "x=$w", "y=$w"] if q else ["x=$v", "x=$w", "y=$w", "y=$v", "x=int1"],
                       VarPool=["v|Int||", "w|String||", "w|Int||"] if q else ["v|Int||", "v|String||", "w|String||", "w|Int||"])
-    c["frags"] = dict(BASE, MaxNodes=3 if q else 4, MaxSecs=3, Fields=["n"], LeafOnly=["n"], Conds=["Query"] if q else ["Query", "A", "Int", "Nope"], FragNames=["F1", "F2"], Spreads=["F1", "F2", "Nope"])
+    c["frags"] = dict(BASE, MaxNodes=3 if q else 4, MaxSecs=3, Fields=["n"], LeafOnly=["n"], Conds=["Query"] if q else ["Query", "A", "Nope"], FragNames=["F1", "F2"], Spreads=["F1", "F2", "Nope"])
     c["fragvars"] = dict(BASE, MaxNodes=3, MaxSecs=2 if q else 3, MaxArgs=1, MaxVars=1, OpHeads=["query:Q"] if q else ["query:Q", "query:R"], Fields=["fi"], LeafOnly=["fi"], Conds=["Query"], FragNames=["F1"], Spreads=["F1"],
                          ArgPool=["x=$v", "x=int1"] if q else ["x=$v", "x=int1", "x=$w"], VarPool=["v|Int||", "v|String||"])
     c["ops"] = dict(BASE, MaxNodes=3, MaxSecs=2, MaxAlias=1, OpHeads=["query:", "query:Q", "subscription:S", "mutation:Q"] if q else ["query:", "query:Q", "query:R", "mutation:Q", "subscription:S", "subscription:"],
@@ -999,3 +1002,103 @@ def write_gen_module(dirpath, name, confs, invariants):
     with open("%s/%s.cfg" % (dirpath, name), "w") as f:
         f.write("CONSTANT Configs <- CfgSet\nINIT Init\nNEXT Next\n" + "".join("INVARIANT %s\n" % i for i in invariants))
     return mod
+
+
+# ---------------------------------------------------------------------------------------------------------
+# seeded random type systems (dynamic flavour): lib/gqlgen.random_ts extended with arguments, input objects,
+# a mutation and a subscription root, and the schema's directive definitions
+def random_ts(rng, directives):
+    import gqlgen
+    ts, _objects = gqlgen.random_ts(rng, n_obj=rng.randint(3, 4))
+    types = ts["types"]
+    for t in types.values():
+        t["inputFields"] = []
+        for f in t["fields"].values():
+            f["args"] = []
+    nvals = len(types["Color"]["values"])
+    def arg(name, ty, default=None):
+        return {"name": name, "ty": ty, "hasDefault": default is not None, "default": default if default is not None else NULL}
+    in2 = [arg("k", NN(N("Int"))), arg("t", N("Stamp"))]
+    in1 = [arg("a", N("Int")), arg("b", NN(N("String"))), arg("e", N("Color")), arg("l", LT(NN(N("Int")))), arg("d", NN(N("Int")), I(3)), arg("n", N("IN1"))]
+    if rng.random() < 0.6:
+        in1.append(arg("o", rng.choice([N("IN2"), NN(N("IN2")), LT(N("IN2"))])))
+    types["IN1"] = {"kind": "INPUT_OBJECT", "fields": {}, "implements": [], "members": [], "values": [], "inputFields": in1}
+    types["IN2"] = {"kind": "INPUT_OBJECT", "fields": {}, "implements": [], "members": [], "values": [], "inputFields": in2}
+    arg_types = ["Int", "Int!", "String", "Boolean!", "ID", "Float", "Color", "Color!", "Stamp", "IN1", "IN1!", "IN2", "[Int!]", "[Int]!", "[IN1]", "[Color!]", "[String]"]
+    iface_fields = {f for t in types.values() if t["kind"] == "INTERFACE" for f in t["fields"]}
+    for tn, t in sorted(types.items()):
+        if t["kind"] != "OBJECT":
+            continue
+        for fn, f in sorted(t["fields"].items()):
+            if fn in iface_fields or rng.random() > (0.6 if tn == "Query" else 0.3):
+                continue
+            for j in range(rng.randint(1, 2)):
+                ty = parse_type(rng.choice(arg_types))
+                default = None
+                if rng.random() < 0.3:
+                    default = value_for(ts, ty, rng)
+                f["args"].append(arg("p%d" % (j + 1), ty, default))
+    def F(ty, *args): return {"ty": ty, "args": list(args), "outer": False, "guard": False, "gen": True}
+    objs = sorted(t for t, d in types.items() if d["kind"] == "OBJECT" and t != "Query")
+    types["Mutation"] = {"kind": "OBJECT", "fields": {"m1": F(NN(N("Int")), arg("x", NN(N("Int")), I(1))), "m2": F(N(objs[0]), arg("i", NN(N("IN1"))))},
+                         "implements": [], "members": [], "values": [], "inputFields": []}
+    types["Subscription"] = {"kind": "OBJECT", "fields": {"s1": F(NN(N("Int")), arg("n", N("Int"))), "s2": F(NN(N(objs[-1]))), "s3": F(N("String"))},
+                             "implements": [], "members": [], "values": [], "inputFields": []}
+    ts["mutation"], ts["subscription"] = "Mutation", "Subscription"
+    ts["directives"] = {k: dict(v, staticOnly=False) for k, v in directives.items() if not v.get("staticOnly")}
+    return prune_unused(ts)
+
+
+def prune_unused(ts):
+    """async-graphql drops every type that is not reachable from the root types through field types, argument types,
+    union members, the possible types of an interface and input fields (Registry::remove_unused_types; an interface that is
+    only named in `implements` lists is NOT reachable).  The harness compares the result with the live registry."""
+    types = ts["types"]
+    used = set()
+
+    def visit(n):
+        if n in used or n not in types:
+            return
+        used.add(n)
+        t = types[n]
+        for f in t["fields"].values():
+            visit(named(f["ty"]))
+            for a in f["args"]:
+                visit(named(a["ty"]))
+        if t["kind"] == "INTERFACE":
+            for o, d in types.items():
+                if n in d["implements"]:
+                    visit(o)
+        for m in t["members"]:
+            visit(m)
+        for a in t["inputFields"]:
+            visit(named(a["ty"]))
+    for root in (ts["query"], ts.get("mutation"), ts.get("subscription")):
+        if root:
+            visit(root)
+    ts["types"] = {n: t for n, t in types.items() if n in used}
+    for t in ts["types"].values():
+        t["implements"] = [i for i in t["implements"] if i in used]
+    return ts
+
+
+@M("generic-conflict")
+def m_generic_conflict(ts, d, r):
+    """two fields with one response key: in one object scope, or behind two object type conditions (TLC decides whether they may merge)"""
+    def leafs(t):
+        return sorted(f for f, fd in ts["types"][t]["fields"].items() if kind(ts, named(fd["ty"])) in ("SCALAR", "ENUM")
+                      and not any(a["ty"]["k"] == "nn" and not a["hasDefault"] for a in fd["args"]))
+    cands = [(sibs, t) for sibs, t in any_sels(ts, d) if kind(ts, t) in ("OBJECT", "INTERFACE", "UNION")]
+    if not cands: return None
+    sibs, t = r.choice(cands)
+    ps = possible(ts, t)
+    if kind(ts, t) != "UNION" and len(leafs(t)) >= 2 and (len(ps) < 2 or r.random() < 0.5):
+        f, g = r.sample(leafs(t), 2)
+        sibs += [field(f, alias="zk"), field(g, alias="zk")]
+        return d
+    if len(ps) >= 2:
+        o1, o2 = r.sample(ps, 2)
+        if not leafs(o1) or not leafs(o2): return None
+        sibs += [inline(o1, [field(r.choice(leafs(o1)), alias="zk")]), inline(o2, [field(r.choice(leafs(o2)), alias="zk")])]
+        return d
+    return None
